@@ -138,4 +138,375 @@ theorem mem_del {l : List (κ × ν)} {k : κ} {e : κ × ν} (h : e ∈ del l k
       · exact List.mem_cons_of_mem _ (ih h)
 
 end AList
+open AList
+
+/-! ## The file-name function -/
+
+theorem pickleFilename_tagged (p : Pid) (t : Ident) :
+    (pickleFilename p (some t)).toList = p.repr.toList ++ '.' :: (t.repr.toList ++ '.' :: Gen.pickleSuffix.toList) := by
+  simp [pickleFilename, render, Gen.pickleNameTagged, String.toList_append]
+
+theorem pickleFilename_untagged (p : Pid) :
+    (pickleFilename p none).toList = p.repr.toList ++ '.' :: Gen.pickleSuffix.toList := by
+  simp [pickleFilename, render, Gen.pickleNameUntagged, String.toList_append]
+
+theorem suffix_dotfree : '.' ∉ Gen.pickleSuffix.toList := by decide
+
+theorem sepFree_dot {s : String} (h : sepFree s = true) : '.' ∉ s.toList := by
+  intro hm
+  simp only [sepFree, List.all_eq_true] at h
+  have := h _ hm
+  simp [separators] at this
+
+theorem app_dot {a b c d : List Char} (ha : '.' ∉ a) (hc : '.' ∉ c) (h : a ++ '.' :: b = c ++ '.' :: d) : a = c ∧ b = d := by
+  induction a generalizing c with
+  | nil => cases c with
+    | nil => simpa using h
+    | cons x xs => simp at h hc; exact absurd h.1 hc.1
+  | cons x xs ih => cases c with
+    | nil => simp at h ha; exact absurd h.1.symm ha.1
+    | cons y ys =>
+      simp at h ha hc
+      have := ih ha.2 hc.2 h.2
+      simp [h.1, this]
+
+theorem wfId_iff {K : Kind} {i : Ident} : wfId K i = true ↔ i.kind = K ∧ sepFree i.repr = true := by
+  simp [wfId]
+
+theorem ident_ext {i j : Ident} (hk : i.kind = j.kind) (hr : i.repr.toList = j.repr.toList) : i = j := by
+  cases i; cases j; simp at hk hr; simp [hk, String.toList_inj.1 hr]
+
+/-- the file name determines the key, for separator-free ids of one kind -/
+theorem filename_injective {K : Kind} {k k' : Key} (h : wfKey K k = true) (h' : wfKey K k' = true)
+    (e : pickleFilename k.1 k.2 = pickleFilename k'.1 k'.2) : k = k' := by
+  obtain ⟨p, t⟩ := k
+  obtain ⟨p', t'⟩ := k'
+  simp only [wfKey, Bool.and_eq_true] at h h'
+  have hp := wfId_iff.1 h.1
+  have hp' := wfId_iff.1 h'.1
+  have e' := congrArg String.toList e
+  cases t with
+  | none =>
+    cases t' with
+    | none =>
+      simp only [pickleFilename_untagged] at e'
+      have := app_dot (sepFree_dot hp.2) (sepFree_dot hp'.2) e'
+      rw [ident_ext (hp.1.trans hp'.1.symm) this.1]
+    | some u' =>
+      exfalso
+      simp only [pickleFilename_untagged, pickleFilename_tagged] at e'
+      have := (app_dot (sepFree_dot hp.2) (sepFree_dot hp'.2) e').2
+      exact suffix_dotfree (by rw [this]; simp)
+  | some u =>
+    have hu := wfId_iff.1 (by simpa [wfTag] using h.2 : wfId K u = true)
+    cases t' with
+    | none =>
+      exfalso
+      simp only [pickleFilename_untagged, pickleFilename_tagged] at e'
+      have := (app_dot (sepFree_dot hp.2) (sepFree_dot hp'.2) e').2
+      exact suffix_dotfree (by rw [← this]; simp)
+    | some u' =>
+      have hu' := wfId_iff.1 (by simpa [wfTag] using h'.2 : wfId K u' = true)
+      simp only [pickleFilename_tagged] at e'
+      have h1 := app_dot (sepFree_dot hp.2) (sepFree_dot hp'.2) e'
+      have h2 := app_dot (sepFree_dot hu.2) (sepFree_dot hu'.2) h1.2
+      rw [ident_ext (hp.1.trans hp'.1.symm) h1.1, ident_ext (hu.1.trans hu'.1.symm) h2.1]
+
+theorem matchesPattern_filename (p : Pid) (t : Tag) : matchesPattern (pickleFilename p t) = true := by
+  simp only [matchesPattern, List.isSuffixOf_iff_suffix]
+  cases t with
+  | none => exact ⟨p.repr.toList, by simp [pickleFilename_untagged, String.toList_append]⟩
+  | some u => exact ⟨p.repr.toList ++ '.' :: u.repr.toList, by simp [pickleFilename_tagged, String.toList_append]⟩
+
+/-! ## `InMemoryPersister` refines the specification -/
+
+/-- abstraction function of the in-memory persister -/
+def absMem (m : InMem) : Spec := fun k => (get? m k.1).bind (fun inner => get? inner k.2)
+
+/-- the dictionaries of the in-memory persister have unique keys -/
+structure Mem.Inv (m : InMem) : Prop where
+  outer : (keys m).Nodup
+  inner : ∀ e ∈ m, (keys e.2).Nodup
+
+theorem Mem.inv_init : Mem.Inv [] := ⟨by simp [keys], by simp⟩
+
+theorem Mem.abs_save (m : InMem) (p : Pid) (t : Tag) (v : Snap) :
+    absMem (Mem.save m p t v) = (absMem m).save (p, t) v := by
+  funext k
+  obtain ⟨p', t'⟩ := k
+  simp only [absMem, Mem.save, Spec.save]
+  cases hm : get? m p with
+  | none =>
+    simp only [get?_set]
+    by_cases h1 : p = p'
+    · subst h1
+      by_cases h2 : t = t'
+      · subst h2; simp [get?_set]
+      · have : ¬ ((p, t') = (p, t)) := by simp; exact fun e => h2 e.symm
+        simp [get?_set, h2, this, hm, get?]
+    · have : ¬ ((p', t') = (p, t)) := by simp; exact fun e _ => h1 e.symm
+      simp [h1, this]
+  | some inner =>
+    simp only [get?_set]
+    by_cases h1 : p = p'
+    · subst h1
+      by_cases h2 : t = t'
+      · subst h2; simp [get?_set]
+      · have : ¬ ((p, t') = (p, t)) := by simp; exact fun e => h2 e.symm
+        simp [get?_set, h2, this, hm]
+    · have : ¬ ((p', t') = (p, t)) := by simp; exact fun e _ => h1 e.symm
+      simp [h1, this]
+
+theorem Mem.load_eq (m : InMem) (p : Pid) (t : Tag) : Mem.load m p t = (absMem m).load (p, t) := by
+  simp only [Mem.load, Spec.load, absMem]
+  cases get? m p with
+  | none => simp
+  | some inner =>
+    simp only [Option.bind_some]
+    cases get? inner t <;> rfl
+
+theorem Mem.abs_del (m : InMem) (p : Pid) (t : Tag) :
+    absMem (Mem.deleteCheckpoint m p t) = (absMem m).del (p, t) := by
+  funext k
+  obtain ⟨p', t'⟩ := k
+  simp only [absMem, Mem.deleteCheckpoint, Spec.del]
+  cases hm : get? m p with
+  | none =>
+    by_cases h1 : p = p'
+    · subst h1; simp [hm]
+    · have : ¬ ((p', t') = (p, t)) := by simp; exact fun e _ => h1 e.symm
+      simp [this]
+  | some inner =>
+    dsimp only
+    cases hi : get? inner t with
+    | none =>
+      dsimp only
+      by_cases h : (p', t') = (p, t)
+      · cases h; simp [hm, hi]
+      · simp [h]
+    | some v =>
+      dsimp only
+      simp only [get?_set]
+      by_cases h1 : p = p'
+      · subst h1
+        by_cases h2 : t = t'
+        · subst h2; simp [get?_del]
+        · have : ¬ ((p, t') = (p, t)) := by simp; exact fun e => h2 e.symm
+          simp [get?_del, h2, this, hm]
+      · have : ¬ ((p', t') = (p, t)) := by simp; exact fun e _ => h1 e.symm
+        simp [h1, this]
+
+theorem Mem.abs_delp (m : InMem) (p : Pid) :
+    absMem (Mem.deleteProcessCheckpoints m p) = (absMem m).delp p := by
+  funext k
+  obtain ⟨p', t'⟩ := k
+  simp only [absMem, Mem.deleteProcessCheckpoints, Spec.delp]
+  cases hm : get? m p with
+  | none =>
+    by_cases h1 : p' = p
+    · subst h1; simp [hm]
+    · simp [h1]
+  | some inner =>
+    simp only [get?_del]
+    by_cases h1 : p = p'
+    · subst h1; simp
+    · have : ¬ p' = p := fun e => h1 e.symm
+      simp [h1, this]
+
+theorem Mem.inv_set {m : InMem} (h : Mem.Inv m) (p : Pid) (inner : Inner) (hi : (keys inner).Nodup) :
+    Mem.Inv (AList.set m p inner) := by
+  refine ⟨nodup_keys_set _ _ h.outer, ?_⟩
+  intro e he
+  rcases mem_set he with he | he
+  · subst he; exact hi
+  · exact h.inner e he
+
+theorem Mem.inv_save {m : InMem} (h : Mem.Inv m) (p : Pid) (t : Tag) (v : Snap) : Mem.Inv (Mem.save m p t v) := by
+  unfold Mem.save
+  cases hm : get? m p with
+  | none => exact Mem.inv_set h _ _ (nodup_keys_set _ _ (by simp [keys]))
+  | some inner => exact Mem.inv_set h _ _ (nodup_keys_set _ _ (h.inner _ (mem_of_get? hm)))
+
+theorem Mem.inv_del {m : InMem} (h : Mem.Inv m) (p : Pid) (t : Tag) : Mem.Inv (Mem.deleteCheckpoint m p t) := by
+  unfold Mem.deleteCheckpoint
+  cases hm : get? m p with
+  | none => exact h
+  | some inner =>
+    dsimp only
+    cases hi : get? inner t with
+    | none => exact h
+    | some v => exact Mem.inv_set h _ _ (nodup_keys_del _ (h.inner _ (mem_of_get? hm)))
+
+theorem Mem.inv_delp {m : InMem} (h : Mem.Inv m) (p : Pid) : Mem.Inv (Mem.deleteProcessCheckpoints m p) := by
+  unfold Mem.deleteProcessCheckpoints
+  cases hm : get? m p with
+  | none => exact h
+  | some inner => exact ⟨nodup_keys_del _ h.outer, fun e he => h.inner e (mem_del he)⟩
+
+theorem Mem.mem_listp (m : InMem) (p : Pid) (k : Key) :
+    k ∈ Mem.getProcessCheckpoints m p ↔ (k.1 = p ∧ (absMem m k).isSome = true) := by
+  obtain ⟨p', t'⟩ := k
+  simp only [Mem.getProcessCheckpoints, absMem]
+  cases hm : get? m p with
+  | none =>
+    simp only [List.not_mem_nil, false_iff, not_and]
+    intro e; subst e; simp [hm]
+  | some inner =>
+    simp only [List.mem_map, Prod.mk.injEq]
+    constructor
+    · rintro ⟨t, ht, rfl, rfl⟩
+      simp [hm, ← mem_keys_iff, ht]
+    · rintro ⟨rfl, h⟩
+      simp only [hm, Option.bind_some, ← mem_keys_iff] at h
+      exact ⟨t', h, rfl, rfl⟩
+
+theorem Mem.nodup_listp {m : InMem} (h : Mem.Inv m) (p : Pid) : (Mem.getProcessCheckpoints m p).Nodup := by
+  simp only [Mem.getProcessCheckpoints]
+  cases hm : get? m p with
+  | none => simp
+  | some inner =>
+    have := h.inner _ (mem_of_get? hm)
+    exact List.Pairwise.map _ (fun a b hab e => hab (by simpa using e)) this
+
+theorem nodup_flatMap_fst {α β : Type} (f : α → List (α × β)) (l : List α) (hl : l.Nodup)
+    (hf : ∀ a ∈ l, (f a).Nodup) (hfst : ∀ a, ∀ k ∈ f a, k.1 = a) : (l.flatMap f).Nodup := by
+  induction l with
+  | nil => simp
+  | cons a r ih =>
+    simp only [List.nodup_cons] at hl
+    simp only [List.flatMap_cons, List.nodup_append]
+    refine ⟨hf a (by simp), ih hl.2 (fun b hb => hf b (List.mem_cons_of_mem _ hb)), ?_⟩
+    intro x hx y hy e
+    subst e
+    obtain ⟨b, hb, hyb⟩ := List.mem_flatMap.1 hy
+    have h1 := hfst a x hx
+    have h2 := hfst b x hyb
+    rw [h1] at h2; subst h2
+    exact hl.1 hb
+
+theorem Mem.lists {m : InMem} (h : Mem.Inv m) : (absMem m).Lists (Mem.getCheckpoints m) := by
+  refine ⟨?_, ?_⟩
+  · exact nodup_flatMap_fst _ _ h.outer (fun a _ => Mem.nodup_listp h a)
+      (fun a k hk => ((Mem.mem_listp m a k).1 hk).1)
+  · intro k
+    simp only [Mem.getCheckpoints, List.mem_flatMap, Mem.mem_listp]
+    constructor
+    · rintro ⟨a, _, _, h2⟩; exact h2
+    · intro h2
+      refine ⟨k.1, ?_, rfl, h2⟩
+      rw [mem_keys_iff]
+      simp only [absMem] at h2
+      cases hg : get? m k.1 with
+      | none => simp [hg] at h2
+      | some _ => simp
+
+theorem Mem.listsP {m : InMem} (h : Mem.Inv m) (p : Pid) : (absMem m).ListsP p (Mem.getProcessCheckpoints m p) :=
+  ⟨Mem.nodup_listp h p, Mem.mem_listp m p⟩
+/-! ## `PicklePersister` refines the specification (for separator-free ids of one kind) -/
+
+/-- abstraction function of the pickle persister: the bundle in the file named after the key -/
+def absPkl (d : Dir) : Spec := fun k => (get? d (pickleFilename k.1 k.2)).map (·.2)
+
+structure Pkl.Inv (K : Kind) (d : Dir) : Prop where
+  names : (keys d).Nodup
+  entry : ∀ e ∈ d, e.1 = pickleFilename e.2.1.1 e.2.1.2 ∧ wfKey K e.2.1 = true
+
+theorem Pkl.inv_init (K : Kind) : Pkl.Inv K [] := ⟨by simp [keys], by simp⟩
+
+theorem Pkl.load_eq (d : Dir) (p : Pid) (t : Tag) : Pkl.load d p t = (absPkl d).load (p, t) := by
+  simp only [Pkl.load, Spec.load, absPkl]
+  cases get? d (pickleFilename p t) <;> rfl
+
+theorem Pkl.abs_save {K : Kind} (d : Dir) (p : Pid) (t : Tag) (v : Snap) (hk : wfKey K (p, t) = true)
+    (k : Key) (hk' : wfKey K k = true) : absPkl (Pkl.save d p t v) k = (absPkl d).save (p, t) v k := by
+  simp only [absPkl, Pkl.save, Spec.save, get?_set]
+  by_cases h : k = (p, t)
+  · subst h; simp
+  · have : ¬ pickleFilename p t = pickleFilename k.1 k.2 := fun e => h (filename_injective hk hk' e).symm
+    simp [h, this]
+
+theorem Pkl.abs_del {K : Kind} (d : Dir) (p : Pid) (t : Tag) (hk : wfKey K (p, t) = true)
+    (k : Key) (hk' : wfKey K k = true) : absPkl (Pkl.deleteCheckpoint d p t) k = (absPkl d).del (p, t) k := by
+  simp only [absPkl, Pkl.deleteCheckpoint, Spec.del, get?_del]
+  by_cases h : k = (p, t)
+  · subst h; simp
+  · have : ¬ pickleFilename p t = pickleFilename k.1 k.2 := fun e => h (filename_injective hk hk' e).symm
+    simp [h, this]
+
+theorem Pkl.inv_save {K : Kind} {d : Dir} (h : Pkl.Inv K d) (p : Pid) (t : Tag) (v : Snap) (hk : wfKey K (p, t) = true) :
+    Pkl.Inv K (Pkl.save d p t v) := by
+  refine ⟨nodup_keys_set _ _ h.names, ?_⟩
+  intro e he
+  rcases mem_set he with he | he
+  · subst he; exact ⟨rfl, hk⟩
+  · exact h.entry e he
+
+theorem Pkl.inv_del {K : Kind} {d : Dir} (h : Pkl.Inv K d) (p : Pid) (t : Tag) : Pkl.Inv K (Pkl.deleteCheckpoint d p t) :=
+  ⟨nodup_keys_del _ h.names, fun e he => h.entry e (mem_del he)⟩
+
+/-- under the invariant a key is listed iff its file exists -/
+theorem Pkl.mem_list {K : Kind} {d : Dir} (h : Pkl.Inv K d) (k : Key) :
+    k ∈ Pkl.getCheckpoints d ↔ (wfKey K k = true ∧ (absPkl d k).isSome = true) := by
+  simp only [Pkl.getCheckpoints, List.mem_map, List.mem_filter, absPkl]
+  constructor
+  · rintro ⟨e, ⟨he, _⟩, rfl⟩
+    obtain ⟨name, ck, v⟩ := e
+    have := h.entry _ he
+    simp only at this
+    refine ⟨this.2, ?_⟩
+    rw [← this.1, get?_of_mem h.names he]; rfl
+  · rintro ⟨hw, hs⟩
+    cases hg : get? d (pickleFilename k.1 k.2) with
+    | none => simp [hg] at hs
+    | some f =>
+      have hm := mem_of_get? hg
+      have := h.entry _ hm
+      simp only at this
+      have hk : k = f.1 := filename_injective hw this.2 this.1
+      exact ⟨_, ⟨hm, matchesPattern_filename _ _⟩, hk.symm⟩
+
+theorem Pkl.nodup_list {K : Kind} {d : Dir} (h : Pkl.Inv K d) : (Pkl.getCheckpoints d).Nodup := by
+  simp only [Pkl.getCheckpoints]
+  have h1 : (d.filter (fun e => matchesPattern e.1)).Pairwise (fun a b => a.1 ≠ b.1) :=
+    List.Pairwise.filter _ (List.pairwise_map.1 h.names)
+  refine List.pairwise_map.2 (List.Pairwise.imp_of_mem ?_ h1)
+  intro a b ha hb hab e
+  have ea := (h.entry a (List.mem_filter.1 ha).1).1
+  have eb := (h.entry b (List.mem_filter.1 hb).1).1
+  exact hab (by rw [ea, eb, e])
+
+theorem Pkl.mem_listp {K : Kind} {d : Dir} (h : Pkl.Inv K d) (p : Pid) (k : Key) :
+    k ∈ Pkl.getProcessCheckpoints d p ↔ (k.1 = p ∧ wfKey K k = true ∧ (absPkl d k).isSome = true) := by
+  simp only [Pkl.getProcessCheckpoints, List.mem_filter, Pkl.mem_list h, decide_eq_true_eq]
+  constructor
+  · rintro ⟨a, b⟩; exact ⟨b, a⟩
+  · rintro ⟨a, b⟩; exact ⟨b, a⟩
+
+theorem Pkl.foldl_del {K : Kind} (L : List Key) (hL : ∀ c ∈ L, wfKey K c = true) (d : Dir) (h : Pkl.Inv K d) :
+    Pkl.Inv K (L.foldl (fun d c => Pkl.deleteCheckpoint d c.1 c.2) d) ∧
+    ∀ k, wfKey K k = true →
+      absPkl (L.foldl (fun d c => Pkl.deleteCheckpoint d c.1 c.2) d) k = if k ∈ L then none else absPkl d k := by
+  induction L generalizing d with
+  | nil => exact ⟨h, by simp⟩
+  | cons c r ih =>
+    have hc := hL c (by simp)
+    obtain ⟨i1, i2⟩ := ih (fun x hx => hL x (List.mem_cons_of_mem _ hx)) (Pkl.deleteCheckpoint d c.1 c.2) (Pkl.inv_del h _ _)
+    refine ⟨i1, ?_⟩
+    intro k hk
+    simp only [List.foldl_cons, i2 k hk, Pkl.abs_del d c.1 c.2 hc k hk, Spec.del, List.mem_cons]
+    by_cases h1 : k ∈ r
+    · simp [h1]
+    · by_cases h2 : k = c <;> simp [h1, h2]
+
+theorem Pkl.inv_delp {K : Kind} {d : Dir} (h : Pkl.Inv K d) (p : Pid) : Pkl.Inv K (Pkl.deleteProcessCheckpoints d p) :=
+  (Pkl.foldl_del _ (fun c hc => ((Pkl.mem_listp h p c).1 hc).2.1) d h).1
+
+theorem Pkl.abs_delp {K : Kind} {d : Dir} (h : Pkl.Inv K d) (p : Pid) (k : Key) (hk : wfKey K k = true) :
+    absPkl (Pkl.deleteProcessCheckpoints d p) k = (absPkl d).delp p k := by
+  have := (Pkl.foldl_del _ (fun c hc => ((Pkl.mem_listp h p c).1 hc).2.1) d h).2 k hk
+  simp only [Pkl.deleteProcessCheckpoints, this, Pkl.mem_listp h, Spec.delp, hk, true_and]
+  by_cases h1 : k.1 = p
+  · cases hs : absPkl d k <;> simp [h1]
+  · simp [h1]
+
 end Persister
